@@ -319,7 +319,8 @@ def run_case(ctx, index):
             ctx.count('reduce_checked')
         elif what == 'stats':
             from biom.util import compute_counts_per_sample_stats
-            for binary in (False, True):
+            for binary in (False, True, np.bool_(True), 1, np.bool_(False),
+                           0):
                 per = (D != 0).sum(axis=0).astype(float) if binary else \
                     D.sum(axis=0)
                 mn, mx, med, mean, counts = compute_counts_per_sample_stats(
